@@ -194,8 +194,10 @@ func (c *Ctx) Flush() {
 			agree = modelURLText(model) == o.impl
 		case "implies":
 			// the model evaluates the hypothesis of a theorem ("clean"), the implementation its conclusion
-			agree = !(model == "clean" && o.impl != "idempotent")
-			c.Hit("second-pass:" + model + "/" + o.impl)
+			hyp := model == "clean" || model == "safe"
+			concl := o.impl == "idempotent" || o.impl == "preserved"
+			agree = !hyp || concl
+			c.Hit("theorem-tie:" + model + "/" + o.impl)
 		case "normtext":
 			// the model answers "error" for any decode/encode error; otherwise exact ordered text
 			if strings.HasPrefix(model, "error") {
